@@ -111,7 +111,15 @@ def _scratch_corpus(repo):
     return dst
 
 
-def build(cfg, force=False, verbose=False, repo=None):
+class _NoLock:
+    def __enter__(self):
+        return self
+
+    def __exit__(self, *a):
+        return False
+
+
+def build(cfg, force=False, verbose=False, repo=None, have_lock=False):
     """Return (facts_dir, info). Builds when the cache for the current tree is missing.
     repo: analyse a scratch copy of the repository instead of /repo (sensitivity self-test only)."""
     cwd, cargo_args, extra_flags, floors = CONFIGS[cfg]
@@ -121,7 +129,7 @@ def build(cfg, force=False, verbose=False, repo=None):
     th = tree_hash(extra, repo)
     out = os.path.join(CACHE, "facts", th, cfg)
     info = {"config": cfg, "tree_hash": th, "cache_hit": False, "build_s": 0.0}
-    with Lock("build-" + cfg):
+    with (_NoLock() if have_lock else Lock("build-" + cfg)):
         done = os.path.join(out, ".done")
         if os.path.exists(done) and not force:
             info["cache_hit"] = True
